@@ -31,6 +31,7 @@ TECHNIQUE += '; parameters stored on a cached object are keyed; results of memoi
 TECHNIQUE += '; process-wide containers are builtin containers (no Python-level item access shared between threads)'
 TECHNIQUE += '; per-call state ends with the call: self-fed attributes of the parser (configuration) are restored on every exit of bound(), normal or exceptional (C10.R11, path-state execution)'
 LEVEL_TEXT += ' Added clause: caches shared by all threads do their lookups and stores in one step.'
+LEVEL_TEXT += ' Added clauses (rounds 9-11): per-call state of a parser object ends with the call on every exit of bound().'
 LEVEL_NOTE = 'Trusted: dataclasses.replace / ParserConfig.new / Config.override return new objects; id(x) of a dead object can be reused.'
 EXPLANATION = ('Static analysis of /repo sources, TatSu not imported. Def-use chains inside api.compile relate parameters to '
                'the cache key and to the cached value; the package is scanned for shared mutable state and each store site is '
